@@ -10,7 +10,7 @@ set_option linter.unusedVariables false
 namespace Op2.Props.C13
 open Op2 Op2.Stream Op2.GenBridge
 open Op2.Gen.Streams
-open Op2.Props.C12 (probeSlice)
+open Op2.Props.C12 (probeSlice ProbeGood)
 
 /-- what the generated constructor can see of a created slice: `startingOffset`, `sliceLength`, the position the
     wrapped stream was sent to -/
@@ -38,12 +38,13 @@ theorem C13_gen_slice_initialize : SliceReader_Initialize_translated = true →
 /-- `Slice(start, length) const` followed by the construction it returns = the model's `slice2` -/
 theorem C13_gen_subslice : (SliceReader_Slice2_translated && SliceReader_Create_translated &&
       SliceReader_Initialize_translated) = true →
-    ∀ (wl wp start len a n : Nat), wl < W64 → wp < W64 → start < W64 → len < W64 → a < W64 → n < W64 →
+    ∀ (wl wp start len a n : Nat), ProbeGood wl start len wp → a < W64 → n < W64 →
       (SliceReader_Slice2 start len wp a n).bind (fun c => SliceReader_Create wl c.1 c.2) =
-        okOr sliceView (Slice.slice2 probeW { w := { length := wl, position := wp }, start := start, len := len } a n) := by
+        okOr sliceView (Slice.slice2 probeW (probeSlice wl start len wp) a n) := by
   gen_bridge =>
-    intro wl wp start len a n h1 h2 h3 h4 h5 h6
-    simp only [Slice.slice2, Slice.create, probeW]
+    intro wl wp start len a n hg h5 h6
+    obtain ⟨g1, g2, g3, g4⟩ := hg
+    simp only [Slice.slice2, Slice.create, probeW, probeSlice]
     (repeat' split) <;> simp only [sliceView, okOr_ok, okOr_error, reduceCtorEq] at * <;>
     simp only [SliceReader_Slice2, SliceReader_Create, SliceReader_Initialize, bind_ite, bind_none', bind_some', u64, W64] at * <;> gen_close
 
